@@ -133,6 +133,50 @@ example : (step? cfgAB sRel (.forget 1)).isSome = true ∧ Covers sRel.acked 1 (
 /-- … and it is not enabled while an appended line is unread (the job is resumed instead) -/
 example : step? cfgAB sRel2 (.forget 1) = none := by decide
 
+/-! ### a file discovered after the start phase is read from its beginning -/
+
+/-- **late discovery ignores the loaded offsets** (`addJob`: "load saved offsets only on start phase"):
+    once the start-up scan is over, a new job starts at offset 0 with no stream offsets, whatever the
+    table of offsets loaded at start (never pruned during the run) holds for that inode number — e.g. the
+    stale entry of a deleted file whose inode number the new file has got -/
+theorem late_discovery_from_zero (s : State) (i : Nat) (hs : s.scanning = false) :
+    (addJob s i).jobs i = some ⟨⟨0, [], false⟩, [], 0, 0⟩ := by
+  simp [addJob, hs]
+
+/-- … and its first turn over the whole file puts every admitted complete line in flight: none is
+    skipped, whatever `loaded` says -/
+theorem late_file_read_from_start (cfg : Cfg) (s : State) (i : Nat) (f : FileSt)
+    (hr : running s = true) (hs : s.scanning = false) (hf : s.files i = some f) (hj : s.jobs i = none) :
+    ∃ s1 s2, step? cfg s (.discover i) = some s1 ∧ step? cfg s1 (.readTurn i [f.content]) = some s2 ∧
+      ∀ l ∈ lines f, cfg.accept l.2 = true → Covers s2.inflight i l := by
+  have hj1 : (addJob s i).jobs i = some ⟨⟨0, [], false⟩, [], 0, 0⟩ := late_discovery_from_zero s i hs
+  have hf1 : (addJob s i).files i = some f := by simp [addJob, hs, hf]
+  have hr1 : running (addJob s i) = true := by simpa [addJob, hs, running] using hr
+  have hfold := fold_inOne_noOffsets (cfg := cfg) (i := i) (specLines f.content 0 []) (addJob s i)
+    ⟨_, hj1, rfl⟩
+  obtain ⟨⟨j', hj', _⟩, _, hcov⟩ := hfold
+  refine ⟨addJob s i, readTurn cfg (addJob s i) i f ⟨⟨0, [], false⟩, [], 0, 0⟩ [f.content],
+    by simp [step?, hr, hf, hj], ?_, ?_⟩
+  · simp only [step?, hr1, hf1, hj1, ↓reduceIte]
+    simp
+  · intro l hl hacc
+    unfold readTurn
+    rw [turn_lit _ rfl]
+    simp only [List.flatten_cons, List.flatten_nil, List.append_nil]
+    simp only [hj']
+    exact hcov l hl hacc
+
+/-- non-vacuity: `loaded` holds a stale `{a: 4}` for inode 1, the new file `a\na\na\n` arrives late -/
+example : ∃ s1 s2, step? cfgAB sLate (.discover 1) = some s1 ∧
+    step? cfgAB s1 (.readTurn 1 [[97, 10, 97, 10, 97, 10]]) = some s2 ∧ Covers s2.inflight 1 (2, [97, 10]) := by
+  obtain ⟨s1, s2, h1, h2, h3⟩ := late_file_read_from_start cfgAB sLate 1 ⟨0, [97, 10, 97, 10, 97, 10]⟩
+    (by decide) (by decide) rfl (by
+      cases h : sLate.jobs 1 with
+      | none => rfl
+      | some j => have : (sLate.jobs 1).isSome = false := by decide
+                  rw [h] at this; cases this)
+  exact ⟨s1, s2, h1, h2, h3 (2, [97, 10]) (by decide) rfl⟩
+
 /-! ### the full statement is false of the unchanged code -/
 
 /-- **counterexample to `NoLoss`**: with several streams in one file the saved offsets list only the
